@@ -549,6 +549,9 @@ def gen_fun_check(m, roots, roots_data, arg_paths, values, obs):
         return res          # both routes are compared only when the generated function ran to the end
     res["equal"] = (sa == sb)
     if sa != sb:
+        import re
+        zn = lambda t: re.sub(r"-0j", "0j", re.sub(r"-0\.(?![0-9])", "0.", re.sub(r"-0\.0(?![0-9])", "0.0", json.dumps(t))))
+        res["zero_only"] = (zn(sa) == zn(sb))          # the two routes differ in the sign of a zero and in nothing else
         res["diff"] = [[x, y] for x, y in zip(sa, sb) if x != y][:4]
     # the source lists each triggered task once, producers first
     trig = triggered(m, start)
